@@ -366,6 +366,15 @@ def coerce(v, ty):
         return Val(ty, f(*comps) if comps else z3.Const("pytuple0", RefS))
     if isinstance(v, LVal) and ty[0] == "ref":
         return Val(ty, fresh("pylist", RefS))
+    if isinstance(v, FuncVal) and ty[0] == "ref" and ty[1] is None and v.kind in ("repo", "virtual"):
+        # a (bound) function stored where an arbitrary object is expected (a callback list): an opaque object; calling it
+        # later is outside the model
+        nm = v.name or getattr(getattr(v.info, "node", None), "name", None)
+        if v.self_val is not None and isinstance(v.self_val, Val) and nm:
+            # bound method: a function of the method's name and the receiver (so that specifications can name it)
+            bm = z3.Function("boundmethod", RefS, RefS, RefS)
+            return Val(ty, bm(str_const(nm), v.self_val.t))
+        return Val(ty, fresh("pyfunc", RefS))
     if not isinstance(v, Val):
         raise Unsupported("cannot coerce %r to %r" % (v, ty))
     if v.ty == ty:
